@@ -389,6 +389,63 @@ def qsbr(prop, tier):
     return out
 
 
+def lock(tier):
+    """C07: all unordered pairs of lock programs in closure mode (unbounded), all
+    pairs of two-program sequences, all multisets of three programs at bound 2
+    (quick) / in closure mode (thorough)"""
+    out = []
+    P = ["Rd", "Rd2", "Wr", "WrO", "Up", "Re"]
+    for a, b in itertools.combinations_with_replacement(P, 2):
+        out.append(dict(id="lock-2-%s-%s" % (a, b), runner="lock", threads=[[a], [b]], bound=1000, closure=True))
+    seqs = [[a, b] for a in P for b in P if not (a == "WrO")]  # after making the lock obsolete nothing more can be opened
+    if tier == "quick":
+        seqs = [q for q in seqs if hash_det("".join(q)) % 3 == 0]
+    for a, b in itertools.combinations_with_replacement(seqs, 2):
+        if tier == "quick" and hash_det("".join(a + b)) % 4:
+            continue
+        out.append(dict(id="lock-2x2-%s-%s" % ("".join(a), "".join(b)), runner="lock", threads=[a, b], bound=1000, closure=True))
+    for a, b, c in itertools.combinations_with_replacement(P, 3):
+        if tier == "quick":
+            out.append(dict(id="lock-3-%s-%s-%s" % (a, b, c), runner="lock", threads=[[a], [b], [c]], bound=3))
+        else:
+            out.append(dict(id="lock-3-%s-%s-%s" % (a, b, c), runner="lock", threads=[[a], [b], [c]], bound=1000, closure=True))
+            out.append(dict(id="lock-3b-%s-%s-%s" % (a, b, c), runner="lock", threads=[[a], [b], [c]], bound=3))
+    return out
+
+
+def mutex(tier):
+    """C13: programs over {get, get-and-hold, insert, remove, empty, clear, scan}
+    on keys {1, 2}; all pairs of two-operation programs (quick), all pairs of
+    three-operation programs and all triples of one- and two-operation
+    programs (thorough).  All interleavings, no bound."""
+    out = []
+    ops = ["g:1", "G:1", "i:1", "r:1", "g:2", "i:2", "r:2", "e", "c", "s"]
+    init = ["1"]
+    progs2 = [[a, b] for a in ops for b in ops]
+    if tier == "quick":
+        progs2 = [p for p in progs2 if hash_det("".join(p)) % 4 == 0]
+    for p, q in itertools.combinations_with_replacement(progs2, 2):
+        if tier == "quick" and hash_det("".join(p + q)) % 3:
+            continue
+        out.append(dict(id="mutex-2x2-%s-%s" % ("".join(p).replace(":", ""), "".join(q).replace(":", "")), runner="mutex",
+                        init=init, threads=[p, q], bound=1000))
+    for a, b, c in itertools.combinations_with_replacement(ops, 3):
+        out.append(dict(id="mutex-3-%s-%s-%s" % (a.replace(":", ""), b.replace(":", ""), c.replace(":", "")), runner="mutex",
+                        init=init, threads=[[a], [b], [c]], bound=1000))
+    if tier == "thorough":
+        progs3 = [[a, b, c] for a in ops for b in ops for c in ops if hash_det(a + b + c) % 12 == 0]
+        for p, q in itertools.combinations(progs3, 2):
+            if hash_det("".join(p + q)) % 4:
+                continue
+            out.append(dict(id="mutex-3x3-%s-%s" % ("".join(p).replace(":", ""), "".join(q).replace(":", "")), runner="mutex",
+                            init=init, threads=[p, q], bound=1000))
+        for p, q in itertools.combinations(progs2[::7], 2):
+            for c in ("G:1", "c", "s"):
+                out.append(dict(id="mutex-2x2x1-%s-%s-%s" % ("".join(p).replace(":", ""), "".join(q).replace(":", ""), c.replace(":", "")),
+                                runner="mutex", init=init, threads=[p, q, [c]], bound=1000))
+    return out
+
+
 TABLES = {"C03": c03, "C04": c04, "C09": c09, "C14": c14}
 
 if __name__ == "__main__":
